@@ -477,16 +477,20 @@ func (vm *VM) Step(sc *SimConfig) (string, error) {
 		vm.wait_proc = vm.wait_proc - 1
 	}
 
+	// The workers answer in scheduling order: their reports are listed by processor
+	procResults := make([]string, len(vm.Processors))
 	for {
 		i := <-vm.recv_chan
-		proc_result := <-vm.result_chans[i]
-		if proc_result != "" {
-			result += "\tProc: " + strconv.Itoa(i) + "\n"
-			result += proc_result
-		}
+		procResults[i] = <-vm.result_chans[i]
 		vm.wait_proc = vm.wait_proc + 1
 		if vm.wait_proc == len(vm.Processors) {
 			break
+		}
+	}
+	for i, proc_result := range procResults {
+		if proc_result != "" {
+			result += "\tProc: " + strconv.Itoa(i) + "\n"
+			result += proc_result
 		}
 	}
 
